@@ -56,6 +56,16 @@ def check(ctx):
     for s in strings:
         cs = calls_for(rng, s, False)
         lines += cs if ctx.thorough or len(s) <= 2 else rng.sample(cs, 8)
+    # searching / replacing: every haystack up to length 6 against every needle up to length 4 over {a, b}
+    # (self-overlapping needles, occurrences preceded by partial matches)
+    hay = [list(x) for n in range(0, 7) for x in itertools.product([97, 98], repeat=n)]
+    ndl = [list(x) for n in range(1, 5) for x in itertools.product([97, 98], repeat=n)]
+    for h in hay:
+        for nd in (ndl if ctx.thorough or len(h) >= 4 else rng.sample(ndl, 6)):
+            lines.append(call("memmem", h, nd))
+            if rng.random() < (1.0 if ctx.thorough else 0.4):
+                lines.append(call("replace", h, nd, [88]))
+                lines.append(call("replace_buf", h, nd, [88, 89], len(h) * 2 + 4))
     # command lines and paths built from words
     words = ["cmd", "a", "ab", "help", "x", "cmdx", "", "  ", "\t", "\r\n", "1", "--flag", "a b"]
     for i in range(1500 if ctx.thorough else 400):
